@@ -6,6 +6,7 @@ import (
 	"fmt"
 	"runtime"
 	"sort"
+	"strings"
 	"sync"
 
 	"github.com/bufbuild/protocompile/verifhooks"
@@ -172,7 +173,12 @@ func RunHBFree(cfg RConfig, workers []*RWorker) *ROutcome {
 	var last *RWorker
 	cameFromSpin := map[*RWorker]bool{}
 	isSpinning := func(w *RWorker, pt string) bool {
-		return cfg.SpinPoints[pt] || (cameFromSpin[w] && cfg.SpinFollowers[pt])
+		// "auto." points are inserted before every atomic step by cmd/autoyield;
+		// "auto.spin." ones sit at the top of loops that wait on an atomic.
+		if cfg.SpinPoints[pt] || strings.HasPrefix(pt, "auto.spin.") {
+			return true
+		}
+		return cameFromSpin[w] && (cfg.SpinFollowers[pt] || strings.HasPrefix(pt, "auto."))
 	}
 	spinOnly := 0
 	var hash uint64
